@@ -78,6 +78,7 @@ func C01(c *Ctx) {
 	}
 	c.wrapperRule("C01-6")
 	c.typecastPointerRule()
+	c.importKeyRule("C01-9")
 }
 
 // wrapperRule: wrappers never surround nodes that may return (value, error).
